@@ -156,21 +156,27 @@ example : (stepRaw (run s1 [.measure .digital]) (.delay 100 (.user 0) false)).er
 /-! ### Parametrized mode (on the template model of PulserModel/Param.lean) -/
 
 open Param in
-/-- **Using a (declared) variable makes the sequence parametrized** — whether or not the call
-is then accepted by the store-time checks.  A call with an unknown or foreign variable is
-refused and changes nothing (after the repair of F3; it used to flip the mode). -/
+/-- **An ACCEPTED call that uses a (declared) variable makes the sequence parametrized; a refused
+one changes nothing** — neither a call refused by a store-time check (the flag is put back, repair
+of F40) nor a call with an unknown or foreign variable (repair of F3) alters the template, its
+mode included. -/
 theorem variable_use_parametrizes (t : Tmpl) (p : POp) (h : p.isParam = true) :
-    (varsDeclared t p = true → (tstep t p).1.param = true) ∧
+    ((tstep t p).2 = none → (tstep t p).1.param = true) ∧
+    (∀ e, (tstep t p).2 = some e → (tstep t p).1 = t) ∧
     (varsDeclared t p = false → tstep t p = (t, some .unknownVariable)) := by
   unfold tstep
-  constructor
-  · intro hv
-    simp only [h, hv, Bool.not_true, Bool.and_false, Bool.false_eq_true, if_false, if_true]
-    split
-    · rfl
-    · split <;> rfl
-  · intro hv
-    simp [h, hv]
+  by_cases hv : varsDeclared t p = true
+  · simp only [h, hv, Bool.not_true, Bool.and_false, Bool.false_eq_true, if_false, if_true]
+    refine ⟨?_, ?_, fun hf => by simp at hf⟩
+    · split
+      · intro hn; simp at hn
+      · split <;> intro _ <;> rfl
+    · intro e
+      split
+      · intro _; rfl
+      · split <;> intro hn <;> simp at hn
+  · have hv' : varsDeclared t p = false := by simpa using hv
+    simp [h, hv']
 
 open Param in
 /-- **Once parametrized, always parametrized** (until `build`, which returns a new sequence),
